@@ -51,6 +51,8 @@ T["C08"] = ("Stateless deviation-bounded exploration of the real Input under a v
             "The virtual kernel is a model of the environment (CPython signal delivery, select argument order, GIL-atomic list.append); scheduling points are the library's kernel calls; three known findings share the split-character root cause.")
 T["C18"] = ("(a) get_cursor_position on a constructed window with scripted streams: 157 preceding inputs (all sequences of <=2 pieces of keypresses, escape sequences and look-alike fragments) x 7-bit/8-bit CSI x 49 reported positions (1..12345) x trailing input x callback present/absent, and every placement of <=2 failing reads; (b) all depth-3 histories over renders, queries answered with any row, and queries with a nested call fired inside the k-th read and a re-query, from every starting top_usable_row: conservation identity, nested call returns 0, flags reset. 0.39 M calls quick.",
             "Complete look-alike reports preceding the real one are inherently ambiguous and filtered; blessed's own get_location path is outside.")
+T["C12"] = ("Fault enumeration on a real pty with real termios/fcntl/signal and the process's fd table: 15 context kinds/options (Input x sigint_event x disable_terminal_start_stop, FullscreenWindow, CursorAwareWindow x hide_cursor x keep_last_line, Cbreak, Nonblocking, Termmode, Input nested in Input, Input inside FullscreenWindow) x 10 initial environments (tty attribute sets, O_NONBLOCK, previous SIGINT handler, previous wake-up fd) x object lifecycles (fresh / constructed while the environment was different / already used once) x bodies of <=2 operations x crash points: normal exit, an exception after every prefix, KeyboardInterrupt and a real synchronous SIGINT at every asynchronous point (sys.setprofile call/c_return events in curtsies frames), OSError from the k-th write/read/select; 50 enter/exit cycles; Input in a non-main thread. Before/after comparison of tty attributes, file status flags (also after every request), SIGINT handler, wake-up fd, open descriptors, cursor visibility, active buffer, main-screen content. 54 k executions quick.",
+            "Crash points lie between __enter__ returning and __exit__ starting; asynchronous exceptions are injected only where CPython can raise them (not at arbitrary lines); one known finding (trigger pipe never closed).")
 BUILT = set(T)
 TECH = {
  "C02": "explicit-state BFS over render/resize histories, real window + reference terminal",
